@@ -136,5 +136,55 @@ impl ReadOptions {
 //@@ end
 }
 
+// ================= decoding `follow=` and `tail=` (C12): what the option strings mean, and that anything else is refused =================
+pub assume_specification<'a> [<String as PartialEq<&'a str>>::eq] (a: &String, b: &&str) -> (r: bool) ensures r == (a@ == b@);
+#[derive(Debug)] pub struct DeError { pub _p: () }
+pub mod serde { pub mod de { pub struct Error;
+    impl Error { #[verifier::external_body] pub fn custom(msg: &str) -> (r: super::super::DeError) { unimplemented!() } } } }
+// std: parse::<u64>() accepts exactly the decimal texts of u64 (ASSUMED); the texts below are not among them
+pub uninterp spec fn parses_u64(s: Seq<char>) -> Option<u64>;
+pub broadcast proof fn axiom_parse_u64_chars(s: &str)
+    ensures #[trigger] parse_spec::<u64>(s.spec_bytes()) == parses_u64(s@) { admit(); }
+pub proof fn axiom_words_are_not_numbers()
+    ensures parses_u64(""@) is None, parses_u64("yes"@) is None, parses_u64("true"@) is None, parses_u64("false"@) is None, parses_u64("no"@) is None { admit(); }
+pub open spec fn follow_of(s: Seq<char>) -> Option<FollowOption> {
+    if s == ""@ || s == "yes"@ || s == "true"@ { Some(FollowOption::On) }
+    else if s == "false"@ || s == "no"@ { Some(FollowOption::Off) }
+    else { None }      // (numbers: see the clause on parses_u64)
+}
+//@@ slice file=src/store/mod.rs fn=deserialize impl="Deserialize<'de> for FollowOption" name=follow_decode
+//@@ from: let s: String = Deserialize::deserialize(deserializer)
+//@@ rest_of_fn_after_stmt
+//@@ match_str_desugar: match s.as_str() {
+//@@ header
+fn follow_decode(s: String) -> (r: Result<FollowOption, DeError>)
+    ensures
+        // a decimal number of milliseconds is a heartbeat follow of exactly that many milliseconds
+        parses_u64(s@) matches Some(n) ==> r matches Ok(FollowOption::WithHeartbeat(d)) && dur_ns(d) == n as nat * 1_000_000, //# codec.follow.number_is_heartbeat_ms
+        // the words: "", yes, true = follow; false, no = off
+        parses_u64(s@) is None && follow_of(s@) is Some ==> r == Ok::<FollowOption, DeError>(follow_of(s@).unwrap()), //# codec.follow.words_exact
+        // anything else is refused, never read as a plain follow
+        parses_u64(s@) is None && follow_of(s@) is None ==> r is Err, //# codec.follow.everything_else_refused
+{
+    broadcast use axiom_parse_u64_chars;
+    proof { axiom_words_are_not_numbers(); reveal_strlit(""); reveal_strlit("yes"); reveal_strlit("true"); reveal_strlit("false"); reveal_strlit("no");
+        assert(""@.len() == 0); if s@.len() == 0 { assert(s@ =~= ""@); } }
+//@@ epilogue
+}
+//@@ end
+
+//@@ slice file=src/store/mod.rs fn=deserialize_bool name=tail_decode
+//@@ from: let s: String = Deserialize::deserialize(deserializer)
+//@@ rest_of_fn_after_stmt
+//@@ match_str_desugar: match s.as_str() {
+//@@ header
+fn tail_decode(s: String) -> (r: Result<bool, DeError>)
+    ensures
+        r == Ok::<bool, DeError>(!(s@ == "false"@ || s@ == "no"@ || s@ == "0"@)), //# codec.tail.false_no_0_are_off_everything_else_on
+{
+//@@ epilogue
+}
+//@@ end
+
 } // verus!
 fn main() {}
